@@ -36,6 +36,11 @@ func (p *processor) ValidateObservation(
 		}
 	}
 
+	// Chain fee updates are read from the fee quoter on the destination chain.
+	if len(obs.ChainFeeUpdates) > 0 && !observerSupportedChains.Contains(p.destChain) {
+		return fmt.Errorf("dest chain %d is not supported by observer, but chain fee updates were observed", p.destChain)
+	}
+
 	for _, feeComponent := range obs.FeeComponents {
 		if feeComponent.ExecutionFee == nil || feeComponent.ExecutionFee.Cmp(zero) <= 0 {
 			return fmt.Errorf("nil or non-positive %s", "execution fee")
